@@ -69,6 +69,14 @@ class Run:
                 os.remove(disp)
             if self.prop == "C05":
                 self.broken.append(("translator", "gen_consts --dispatch", err.strip()))
+        # the known chunk names of webpsan's two trailing-chunk loops (Props/C14k.v): C14's tie
+        known = os.path.join(gen, "WebpKnown.v")
+        rc, out, err = sh([sys.executable, os.path.join(VERIF, "tools", "gen_consts.py"), "--webp-known", self.repo, known])
+        if rc != 0:
+            if os.path.exists(known):
+                os.remove(known)
+            if self.prop == "C14":
+                self.broken.append(("translator", "gen_consts --webp-known", err.strip()))
         sh(["sh", os.path.join(COQ, "mk_project.sh")])
         self.timings["regen"] = time.time() - t
 
